@@ -72,6 +72,19 @@ CHECKS = {
              "(After ignored for non-neighbours) is identified structurally: the pair is non-adjacent in the list the resolver sorted; adjacent inversions and Require inversions are reported.",
         technique="runtime monitor: in-handler snapshot log + recording tracer, per-position veto enumeration, declarative lifecycle oracle",
         engine="seqmach", design_ref="5/C05"),
+    "C04": dict(
+        level="exploration",
+        text="Stress: 2-16 goroutines issue Add1/Remove1/Set/Toggle/Eval/CanAdd1 with unique uid args on generated schemas while handlers veto and enqueue "
+             "follow-ups, with PRNG yields at the queue schedule points. Scripted: the drainer is parked by a gate at pq.loop-exit / pq.released while 1-3 "
+             "other goroutines append and lose the CAS inside the release window (pq.cas-lost hits counted). Monitors: single occupancy of handlers and eval "
+             "bodies, no nested/overlapping transitions, queue ticks of appended mutations strictly +1 in processing order, exactly-once conservation of uids, "
+             "stranded queue judged at a stable point, WhenQueue(tick) closed for every processed tick (accepted or canceled) and never closed before its own "
+             "transition completed, and a porcupine linearizability check of the client-boundary history (Add1/Remove1/Tick per state) against a per-state tick model. "
+             "A workload that never finishes is classified from the goroutine dump (calls parked inside the machine, nothing running) as a stable block.",
+        note="No handler timeouts, dispose or deadline flush (the statement's exclusions). Remove may return Executed without a transition. porcupine timeout = inconclusive. "
+             "Results returned to a caller whose mutation was drained by another goroutine are not trusted by the model (ground truth from the tracer).",
+        technique="runtime monitor: schedule-point gates/yields, boundary history + recording tracer, exactly-once/ordering checkers, porcupine linearizability, goroutine-dump stable-block classifier",
+        engine="concmach", design_ref="5/C04"),
     "C11": dict(
         level="exploration",
         text="Each generated (schema rich in Auto/mutual-Remove/Add-fan/independent-Require structure, static veto table, history) case is executed on 64 fresh "
@@ -80,6 +93,19 @@ CHECKS = {
         note="One issuing goroutine; random identifiers excluded from the fingerprint. 64 re-executions make a map-order dependence among k>=2 alternatives show with probability >= 1-2^-63.",
         technique="runtime monitor: differential fingerprint across 64 in-process re-executions and across processes",
         engine="seqmach", design_ref="5/C11"),
+    "C19": dict(
+        level="exploration",
+        text="A static scan (go/parser, go/build constraints) finds every exported schema variable of the module (42 today) and generates a registry; "
+             "each schema is checked raw (Parse, undefined relation targets, Require cycles by DFS, Require-Remove conflicts, NewCommon with the typed name list) "
+             "and then explored with the real machine as transition function: BFS from the empty machine with Add1/Remove1 of every state, judging every reached "
+             "active set for Require closure and mutual-Remove exclusivity. Searches that complete below the cap are exhaustive (states/transitions counted); "
+             "for the others every mutual-Remove pair and Require edge is explored exhaustively inside its cone of influence and PRNG random walks on the full "
+             "machine both check the invariants and validate the cone reduction (projected sets must be reachable in the cone).",
+        note="Exhaustive by execution for schemas whose reachable-set count is below the cap (31 of 42 in quick); beyond it exhaustive per cone, with the reduction "
+             "runtime-validated, not proved (a projection miss is reported inconclusive). Exception is treated as defined (the machine always adds it). "
+             "Four documented mix-in schemas that reference Start without defining it are listed as known findings.",
+        technique="runtime exploration: BFS with the real machine as transition function + cone-of-influence BFS + random-walk validation, invariant oracle on every reached set",
+        engine="registry", design_ref="5/C19"),
 }
 
 NOT_YET = "check not built yet in this round (planned, see DESIGN.md section 5)"
@@ -124,6 +150,10 @@ man = {
          "kind_free_text": "driver: case list = f(seed,tier), child processes per batch with pre-case log, watchdog + crash attribution, judge against known_findings.json, evidence writer"},
         {"name": "seqmach", "path": "harness/{gen,rec,oracle}", "serves_properties": ["C01", "C02", "C03", "C05", "C07", "C11", "C14"],
          "kind_free_text": "schema/history/handler generators, recording tracer, declarative clause oracles, single issuing goroutine"},
+        {"name": "concmach", "path": "harness/cmd/{c04,c06,c12,c13}", "serves_properties": ["C04", "C06", "C12", "C13"],
+         "kind_free_text": "gates/yields at verif schedule points, client-boundary histories, porcupine model, quiescence and stable-block (goroutine dump) classifier"},
+        {"name": "registry", "path": "harness/{registry,cmd/c19gen}", "serves_properties": ["C19", "C20"],
+         "kind_free_text": "static scan of /repo -> generated Go registry of shipped schemas; BFS/cone explorer"},
     ],
     "checks": checks,
     "not_applicable": na,
